@@ -1,7 +1,7 @@
 (* C32 — the model's observable passes the property checker (Run.check_case). *)
 From Coq Require Import List NArith Bool Arith Lia String.
 Import ListNotations.
-From TV Require Import Lib.Obs C32.Model C32.Spec C32.Run C32.Proofs.
+From TV Require Import Lib.Obs C32.Model C32.Spec C32.Run C32.Proofs C32.ProofsIp C32.ProofsNames.
 Local Open Scope N_scope.
 
 Lemma view_eqb_refl : forall v, view_eqb v v = true.
@@ -41,15 +41,13 @@ Proof.
 Qed.
 
 (* ---------------- is_valid_ip against the recogniser ---------------- *)
-Section Checker.
+(* under assumptions on getaddrinfo the recogniser agrees with valid_ip on every key *)
+Section Recogniser.
 Variable gai : str -> bool.
 Variable keys : list str.      (* the strings on which getaddrinfo's answer was recorded *)
-(* what is assumed of getaddrinfo(AI_NUMERICHOST) on guarded (non-empty, NUL-free, ASCII)
-   strings: it accepts the plain textual IPv4 / IPv6 forms, and whatever it accepts is made of
-   numeric characters *)
 Hypothesis gai_accepts_plain : forall s, In s keys ->
   ip_guard s = true -> plain_ipv4 s || plain_ipv6 s = true -> gai s = true.
-Hypothesis gai_numeric : forall s,
+Hypothesis gai_numeric : forall s, In s keys ->
   ip_guard s = true -> gai s = true -> numeric_form s = true.
 
 Lemma recognise_agrees : forall k b, In k keys -> recognise_ip k = Some b -> valid_ip gai k = b.
@@ -60,7 +58,7 @@ Proof.
     + inversion H; subst. apply gai_accepts_plain; assumption.
     + destruct (numeric_form k) eqn:F; simpl in H; [discriminate|].
       inversion H; subst. destruct (gai k) eqn:Ga; auto.
-      rewrite (gai_numeric k G Ga) in F. discriminate.
+      rewrite (gai_numeric k Hin G Ga) in F. discriminate.
   - inversion H; subst. reflexivity.
 Qed.
 
@@ -71,6 +69,35 @@ Proof.
   destruct (recognise_ip k) as [b|] eqn:R; auto.
   rewrite (recognise_agrees k b (Hincl k (or_introl eq_refl)) R). apply eqb_reflx.
 Qed.
+End Recogniser.
+
+(* conversely, a passing check_ipv says the answers agree with the recogniser on the keys *)
+Lemma check_ipv_in : forall (f : str -> bool) ks k b,
+  check_ipv ks (map f ks) = true -> In k ks -> recognise_ip k = Some b -> f k = b.
+Proof.
+  intros f ks k b. induction ks as [|a ks IH]; intros H Hin R; [destruct Hin|].
+  simpl in H. apply andb_true_iff in H as [H1 H2]. destruct Hin as [->|Hin]; [|auto].
+  rewrite R in H1. apply eqb_prop in H1. exact H1.
+Qed.
+
+Lemma agreed_numeric : forall gai ks k,
+  check_ipv ks (map (valid_ip gai) ks) = true -> In k ks ->
+  valid_ip gai k = true -> numeric_form k = true.
+Proof.
+  intros gai ks k H Hin V.
+  destruct (numeric_form k) eqn:F; auto.
+  assert (G : ip_guard k = true).
+  { unfold valid_ip in V. apply andb_true_iff in V as [G _]. exact G. }
+  assert (P : plain_ipv4 k || plain_ipv6 k = false).
+  { destruct (plain_ipv4 k || plain_ipv6 k) eqn:P; auto.
+    rewrite (plain_numeric k P) in F. discriminate. }
+  assert (R : recognise_ip k = Some false).
+  { unfold recognise_ip. rewrite G, P, F. reflexivity. }
+  rewrite (check_ipv_in (valid_ip gai) ks k false H Hin R) in V. discriminate.
+Qed.
+
+Section Checker.
+Variable gai : str -> bool.
 
 (* ---------------- one request ---------------- *)
 Lemma spec_xff_eq : forall tr v, spec_xff tr v = xff_candidate tr v.
@@ -95,9 +122,10 @@ Lemma req_ok_model : forall c hs (ask : str -> option bool),
   clean c ->
   plain_str (orig_ip c) = true -> plain_str (orig_proto c) = true ->
   ask (ip_candidate c hs) = Some (valid_ip gai (ip_candidate c hs)) ->
+  (valid_ip gai (ip_candidate c hs) = true -> numeric_form (ip_candidate c hs) = true) ->
   req_ok (view c) (trusted c) ask hs (view (apply_xheaders gai c hs)) = true.
 Proof.
-  intros c hs ask [Hi Hp] Pip Ppr Hask.
+  intros c hs ask [Hi Hp] Pip Ppr Hask Hnum.
   pose proof (apply_fields gai c hs) as (Eip & Epr & _).
   unfold req_ok, view. cbn [fst snd].
   set (c' := apply_xheaders gai c hs) in *.
@@ -124,8 +152,8 @@ Proof.
   assert (B : str_eqb (remote_ip c') (remote_ip c)
               || (ip_guard (remote_ip c') && numeric_form (remote_ip c')) = true).
   { rewrite Eip. destruct (valid_ip gai (ip_candidate c hs)) eqn:V.
-    - unfold valid_ip in V. apply andb_true_iff in V as [G Ga].
-      rewrite G, (gai_numeric _ G Ga). apply orb_true_r.
+    - rewrite (Hnum eq_refl). unfold valid_ip in V. apply andb_true_iff in V as [G Ga].
+      rewrite G. apply orb_true_r.
     - rewrite str_eqb_refl. reflexivity. }
   rewrite B. clear B. cbn [andb].
   (* the protocol clauses *)
@@ -146,7 +174,6 @@ Proof.
   - rewrite E. reflexivity.
   - rewrite str_eqb_refl. apply orb_true_r.
 Qed.
-
 (* ---------------- a whole connection ---------------- *)
 Lemma asked_spec : forall reqs c, clean c ->
   asked gai c reqs = map (fun r => ip_candidate c (fst r)) (handled reqs).
@@ -187,39 +214,62 @@ Qed.
 
 End Checker.
 
-(* The model's observable satisfies the checker whenever the recorded getaddrinfo answers
-   cover the strings asked and are as assumed, and the socket values are plain. *)
-Theorem check_case_model : forall fam addr proto tr tbl reqs,
-  let i : input := (fam, addr, proto, tr, tbl, reqs) in
-  let c := ctx_of i in
-  let gai := gai_of tbl in
-  forallb (fun s => is_some (lookup tbl s)) (asked gai c reqs) = true ->
-  plain_str (orig_ip c) = true -> plain_str (orig_proto c) = true ->
-  (forall s, In s (map fst tbl) ->
-     ip_guard s = true -> plain_ipv4 s || plain_ipv6 s = true -> gai s = true) ->
-  (forall s, ip_guard s = true -> gai s = true -> numeric_form s = true) ->
-  check_case i (run_case i) = true.
+(* The model's observable passes the checker EXACTLY on the well-formed inputs (Run.input_wf):
+   no hypothesis is left — an ill-formed input (table not covering a string asked, socket
+   values that are not plain, recorded getaddrinfo answers contradicting the recogniser) makes
+   the checker fail, which is what the harness relies on. *)
+Theorem check_case_model_iff : forall i, check_case i (run_case i) = input_wf i.
 Proof.
-  intros fam addr proto tr tbl reqs i c gai Hcomp Pip Ppr Hacc Hnum.
+  intros i. pose proof (reqs_of_spec i) as RS.
+  destruct i as [[[[[[fam addr] proto] tr] nka] tbl] raws].
+  unfold check_case, run_case, input_wf, table_of.
+  rewrite <- RS.
+  set (c := ctx_of _). set (gai := gai_of tbl). set (reqs := reqs_of _) in *.
+  clearbody reqs. cbv beta iota zeta.
   assert (Hc : clean c) by apply init_clean.
   assert (Htr : trusted c = tr) by reflexivity.
-  unfold check_case, run_case. fold i. cbn [i]. fold i. fold c. fold gai.
-  rewrite Hcomp.
+  destruct (forallb (fun s => is_some (lookup tbl s)) (asked gai c reqs)) eqn:Hcomp.
+  2:{ cbn [decode]. rewrite andb_false_r. reflexivity. }
   rewrite (serve_spec gai reqs c Hc).
   unfold decode.
   rewrite !dec_views_map.
   replace (map (fun kb : str * bool => OBool (valid_ip gai (fst kb))) tbl)
     with (map OBool (map (valid_ip gai) (map fst tbl))) by (rewrite !map_map; reflexivity).
   rewrite dec_bools_map.
-  unfold view_obs at 1. cbn [dec_view fst snd].
-  rewrite (check_ipv_model gai (map fst tbl) Hacc Hnum (map fst tbl) (incl_refl _)). cbn [andb].
+  unfold view_obs at 1. cbn [dec_view fst snd andb].
+  destruct (plain_str (orig_ip c)) eqn:Pip; [|reflexivity].
+  destruct (plain_str (orig_proto c)) eqn:Ppr; [|reflexivity].
+  cbn [andb].
+  destruct (check_ipv (map fst tbl) (map (valid_ip gai) (map fst tbl))) eqn:Hipv; [|reflexivity].
+  cbn [andb].
   rewrite <- Htr.
   apply (check_conn_model gai c).
   intros r Hr.
-  apply (req_ok_model gai Hnum c (fst r) _ Hc Pip Ppr).
-  rewrite lookup_combine_map.
   rewrite (asked_spec gai reqs c Hc) in Hcomp.
   rewrite forallb_forall in Hcomp.
   specialize (Hcomp (ip_candidate c (fst r)) (in_map _ _ _ Hr)).
-  rewrite is_some_lookup in Hcomp. rewrite Hcomp. reflexivity.
+  rewrite is_some_lookup in Hcomp.
+  apply (req_ok_model gai c (fst r) _ Hc Pip Ppr).
+  - rewrite lookup_combine_map. rewrite Hcomp. reflexivity.
+  - apply (agreed_numeric gai (map fst tbl)); [exact Hipv|apply has_key_in; exact Hcomp].
+Qed.
+
+Corollary check_case_model : forall i, input_wf i = true -> check_case i (run_case i) = true.
+Proof. intros i H. rewrite check_case_model_iff. exact H. Qed.
+
+(* well-formedness from assumptions on the recorded getaddrinfo answers *)
+Lemma input_wf_intro : forall i,
+  let tbl := table_of i in
+  let c := ctx_of i in
+  let gai := gai_of tbl in
+  forallb (fun s => is_some (lookup tbl s)) (asked gai c (reqs_of i)) = true ->
+  plain_str (orig_ip c) = true -> plain_str (orig_proto c) = true ->
+  (forall s, In s (map fst tbl) ->
+     ip_guard s = true -> plain_ipv4 s || plain_ipv6 s = true -> gai s = true) ->
+  (forall s, In s (map fst tbl) -> ip_guard s = true -> gai s = true -> numeric_form s = true) ->
+  input_wf i = true.
+Proof.
+  intros i tbl c gai H1 H2 H3 Hacc Hnum. unfold input_wf. fold tbl c gai.
+  rewrite H1, H2, H3. cbn [andb].
+  apply (check_ipv_model gai (map fst tbl) Hacc Hnum). apply incl_refl.
 Qed.
